@@ -242,7 +242,7 @@ def run(cap):
         "disp:hy_ylow": 0.15,
         "disp:hy": 0.2,
         "disp:e_x.e_y~0": 0.4,
-        "disp:sign+size": 0.4,
+        "disp:sign+size": 0.9,  # decides the SIGN (a wrong sign gives 2); the size is decided by the closed forms
         "simpson:sign": 0.0,
         "simpson:size": 0.4,
         "simpson:g_23=0": 0.0,
